@@ -302,3 +302,37 @@ where
 {
     arcs_less_n::<4>(&this.0, &other.0)
 }
+
+// ------------------------------------------------------------------------------------
+// Cut S7: `SnmpOid::try_from(&str)` replaced by a scripted result in socket-layer harnesses.  The text -> OID
+// conversion is decided on its own in C08 (arcs_N + tokenizer harnesses); here the request's OID is a borrowed
+// slice of a static array with symbolic content and CONCRETE length (an owned Vec of symbolic length made the
+// encoder query run > 600 s of symbolic execution).
+pub const OID_SLOTS: usize = 3;
+pub static mut OID_BYTES: [[u8; 4]; OID_SLOTS] = [[0; 4]; OID_SLOTS];
+pub static mut OID_LEN: [usize; OID_SLOTS] = [3; OID_SLOTS];
+pub static mut OID_POS: usize = 0;
+pub static mut OID_FAIL_AT: usize = usize::MAX;
+
+pub fn stub_oid_from_str<'a, 'b>(_value: &'a str) -> Result<SnmpOid<'b>, SnmpError>
+where
+    'a: 'a,
+    'b: 'b,
+{
+    unsafe {
+        let i = OID_POS;
+        OID_POS += 1;
+        if i >= OID_SLOTS || i == OID_FAIL_AT {
+            return Err(SnmpError::InvalidData);
+        }
+        let s: &'static [u8] = &OID_BYTES[i];
+        Ok(SnmpOid(Cow::Borrowed(&s[..OID_LEN[i]])))
+    }
+}
+
+pub fn script_oids(b: [[u8; 4]; OID_SLOTS]) {
+    unsafe {
+        OID_BYTES = b;
+        OID_POS = 0;
+    }
+}
